@@ -637,9 +637,14 @@ def getattr_(I, obj, name, default=MISSING):
             return obj.ns[name]
         # lazily loaded submodule
         try:
-            return I.import_module(obj.name + "." + name) if I.world.module_path(obj.name + "." + name)[0] else missing()
+            if I.world.module_path(obj.name + "." + name)[0]:
+                return I.import_module(obj.name + "." + name)
         except OutOfReach:
-            return missing()
+            pass
+        if getattr(obj, "is_model", False) and default is MISSING:
+            # a standard-library module modelled only in part: the real module may well have this attribute
+            raise OutOfReach("%s.%s is not modelled" % (obj.name, name))
+        return missing()
     if isinstance(obj, IFunction):
         if name in obj.fattrs:
             return obj.fattrs[name]
